@@ -229,6 +229,11 @@ def run_generic(module_names, qname, obligation, model):
         env2.setdefault('result', outcome[1])
         try:
             ok = _call(clause, env2)
+        except (IndexError, KeyError, StopIteration) as e:
+            # the clause looks up something that the real run did not produce (an expected event / element is
+            # missing): the clause does not hold, as in the symbolic evaluation
+            print('clause raised', repr(e), '-- what it refers to does not exist in the real run')
+            ok = False
         except Exception as e:
             print('clause raised', repr(e))
             print('the clause cannot be evaluated natively on the rebuilt input (stubs answer with defaults): '
@@ -242,6 +247,11 @@ def run_generic(module_names, qname, obligation, model):
         allowed = tuple(x for x in list(c.raises) + list(c.may_raise) + list(c.raises_only or ())
                         if isinstance(x, type))
         bad = not (allowed and isinstance(outcome[1], allowed))
+        if bad and isinstance(outcome[1], (TypeError, AttributeError)) and \
+                any(w in str(outcome[1]) for w in ('Stub_', '_Anything', 'stub ')):
+            print('the exception comes from a stand-in object of the rebuilt input (a stub that is not callable / '
+                  'lacks an attribute), not from the code: not counted as a reproduction')
+            return 2
         print('exception %r is %s by the contract' % (outcome[1], 'NOT allowed' if bad else 'allowed'))
         return 1 if bad else 0
     m = re.search(r' : raises\[(\w+)\]', obligation)
